@@ -168,6 +168,22 @@ def wrapper_var2h(tier):
                 out.append(('values-passed', np.array_equal(c.args[6], np.array(vals), equal_nan=True), tag))
                 out.append(('output-length=int(span/period)-filled-with-nan', len(c.args[7]) == span // period and bool(np.all(np.isnan(c.args[7]))), dict(tag, got=len(c.args[7]))))
                 out.append(('result-index', len(res) == span // period and res.index[0] == pd.Timestamp('2001-03-04 06:00:00'), tag))
+    # every observation reaches the kernel, in order: repeated stamps with different values (a step in the record), NaN and zero values
+    dstamps = ['2001-03-04 05:10:00', '2001-03-04 06:40:00', '2001-03-04 06:40:00', '2001-03-04 08:00:00', '2001-03-04 08:00:00', '2001-03-04 11:30:00']
+    dvals = [1.0, 2.0, 5.0, 0.0, np.nan, 4.0]
+    dwant = [int((pd.Timestamp(t) - pd.Timestamp('1970-01-01')).total_seconds()) for t in dstamps]
+    for rainfall in (False, True):
+        se = pd.Series(dvals, index=pd.DatetimeIndex(dstamps))
+        rec = Recorder()
+        with patched_module(D, 'c_hydrodiy_data', rec):
+            try:
+                D.var2h(se, nbsec_per_period=3600, maxgapsec=7200, rainfall=rainfall)
+            except Exception as e:
+                out.append(('wrapper-runs', False, dict(case='duplicate-stamps', rainfall=rainfall, error=repr(e))))
+                continue
+        c = rec.calls[-1]
+        out.append(('every-observation-reaches-the-kernel-in-order', list(map(int, c.args[5])) == dwant and np.array_equal(c.args[6], np.array(dvals), equal_nan=True)
+                    and int(c.args[3]) == int(rainfall), dict(case='duplicate-stamps', rainfall=rainfall, got=list(map(int, c.args[5])), values=[None if v != v else float(v) for v in c.args[6]])))
     return out
 
 
